@@ -121,7 +121,10 @@ def compare(plain, wrapped, nvals, rng):
             except am.Unrepresentable:
                 same = True       # clock / OS draws
         ev["gens"].append({"exc_w": exc_w, "exc_p": exc_p, "same_value": same,
-                           "plain_accepts": (not exc_w) and ok_validate(plain, vw)})
+                           "plain_accepts": (not exc_w) and ok_validate(plain, vw),
+                           # what the tree of built-ins generates for itself conforms (it does not for the
+                           # contradictory declarations of C01's open findings: nothing to compare with then)
+                           "plain_own_ok": (not exc_p) and ok_validate(plain, vp)})
     sub_values = values[: (8 if nvals else 40)]
     holes = []
     for v in sub_values[:4]:
@@ -197,6 +200,38 @@ def main(chk):
         ev.update({"id": len(events) + 1, "s": am.a_schema(plain), "w": am.a_schema(wrapped), "flat_pair": True})
         events.append(ev)
         chk.count("any_of_wrapped_any")
+    # a forwarding type inside a forwarding type, ten deep; and all of it once more after a burst of
+    # generations that end in an exception *inside* a forwarding type (the module-level generator is
+    # shared: whatever such a failure leaves behind is there for every later generation)
+    str0 = {"t": "str", "value": [], "len": [], "min_len": [], "max_len": [], "alphabet": [{"k": "str", "s": []}],
+            "substr": [], "pattern": []}
+    int15 = {"t": "int", "value": [], "min": [{"k": "int", "n": 1}], "max": [{"k": "int", "n": 5}]}
+    towers = []
+    for base in (int15, {"t": "list", "type": [int15], "elems": [], "len": [{"k": "int", "n": 2}], "min_len": [],
+                         "max_len": []},
+                 {"t": "dict", "keys": [[{"key": {"k": "str", "s": [97]}, "val": int15, "opt": False}]]}):
+        w = base
+        for _ in range(10):
+            w = {"t": "custom", "inner": w}
+        towers.append((base, w))
+    for burst in (False, True):
+        if burst:
+            import d42
+            failing = am.g_schema({"t": "custom", "inner": {"t": "list", "type": [{"t": "custom", "inner": str0}],
+                                                              "elems": [], "len": [{"k": "int", "n": 1}],
+                                                              "min_len": [], "max_len": []}})
+            for _ in range(12):
+                try:
+                    d42.fake(failing)
+                except Exception:
+                    pass
+            chk.count("failing_generations_through_wrappers", 12)
+        for base, w in towers:
+            plain, wrapped = am.g_schema(base), am.g_schema(w)
+            ev = compare(plain, wrapped, nvals or 40, chk.rng)
+            ev.update({"id": len(events) + 1, "s": base, "w": w, "flat_pair": False})
+            events.append(ev)
+            chk.count("wrapper_towers")
     # code -> spec: random declarations nested three or four levels with forwarding types wherever the
     # random builder put them (several in one tree, a wrapper inside a wrapper, under aliases, as
     # union alternatives), each against the same tree with every wrapper removed
